@@ -63,6 +63,7 @@ def lsock_class():
         ex.ghost['cli_handed'] = z3.BoolVal(False)
         ex.ghost['cli_gone'] = z3.BoolVal(False)
         ex.ghost['cli_no_reply_expected'] = z3.BoolVal(False)
+        ex.ghost['none_header_received'] = z3.BoolVal(False)
         ex.ghost['new_child_key'] = None
         ex.ghost['n_accepts'] = ex.ghost.get('n_accepts', z3.IntVal(0)) + 1
         return VTuple([cli, VSym(ex.fresh('cli_addr', Val))])
@@ -121,6 +122,7 @@ def worker_payload_hook(interp, fi, args, kwargs, node, self_cls):
             if first is not None and z3.is_true(first) and isinstance(r, VSym):
                 # a client that sends None as its header expects no reply
                 ex.ghost['cli_no_reply_expected'] = (r.t == Val.v_none)
+                ex.ghost['none_header_received'] = (r.t == Val.v_none)
             return r
         except PyRaise as pr:
             if pr.exc.cls == 'ConnectionClosedError':
@@ -182,6 +184,7 @@ def server_state(ex, env):
     ex.ghost['was_child'] = z3.BoolVal(False)
     ex.ghost['cur_cli'] = None
     ex.ghost['terminate_requested'] = z3.BoolVal(False)
+    ex.ghost['none_header_received'] = z3.BoolVal(False)
     ex.ghost['__attr_kinds__'] = {'children': 'symlist', 'contexts': ('symdict', ('abs', 'RCtx'))}
     for nm, srt in (('p0', smt.Int), ('k1', smt.Int), ('k2', smt.Int)):
         env[nm] = VInt(ex.fresh(nm, srt))
